@@ -25,8 +25,8 @@
 (***************************************************************************************)
 EXTENDS BitcaskFault, Json, IOUtils
 
-VARIABLES l, acc       \* next event; bytes of a merge copy seen so far (large records take several writes)
-tvars == <<fvars, l, acc>>
+VARIABLES l            \* next event
+tvars == <<fvars, l>>
 NoFaultChange == UNCHANGED <<nfault, allowed>>
 
 Rec == ndJsonDeserialize(IOEnv.TRACE)
@@ -56,7 +56,7 @@ Blank(c) ==
     /\ nfault' = 0 /\ allowed' = [k \in Keys |-> {None}]
 
 TInit ==
-    /\ l = 2 /\ acc = 0
+    /\ l = 2
     /\ cfg = [maxFile |-> 0, sync |-> "none", thFragNum |-> 1, thFragDen |-> 1, thDead |-> 0, thSmall |-> 0]
     /\ data = <<>> /\ hint = <<>> /\ dsync = <<>> /\ hsync = <<>>
     /\ keydir = EmptyKeydir /\ stats = <<>> /\ active = 0 /\ written = 0
@@ -75,19 +75,19 @@ Skip ==
     /\ \/ (IsSys(E) /\ ~Mutating(E))
        \/ E.ev = "power"
        \/ E.ev = "final"
-    /\ Consume /\ UNCHANGED <<fvars, acc>>
+    /\ Consume /\ UNCHANGED fvars
 
 \* a crash probe: the specification's recovery of ITS directory agrees with the real one
 CrashProbe ==
     /\ l <= N /\ E.ev = "crash"
     /\ E.rec.opened
     /\ \A k \in Keys : E.rec.map[k] = RecoveredMap(data, hint)[k]
-    /\ Consume /\ UNCHANGED <<fvars, acc>>
+    /\ Consume /\ UNCHANGED fvars
 
 ResetEv ==
     /\ l <= N /\ E.ev = "reset"
     /\ Blank(CfgOf(E.cfg))
-    /\ acc' = 0 /\ Consume
+    /\ Consume
 
 \* inv: the operation starts (open / reopen start when their create call is consumed)
 InvEv ==
@@ -100,7 +100,7 @@ InvEv ==
          [] E.op = "put" -> FStartWrite(E.k, E.v)
          [] E.op = "del" -> FStartWrite(E.k, Tomb)
          [] E.op = "merge" -> FStartMerge /\ NoFaultChange
-    /\ acc' = 0 /\ Consume
+    /\ Consume
 
 -----------------------------------------------------------------------------------------
 (* system-call steps: the recorded call must be the call the specification is about to issue *)
@@ -129,16 +129,14 @@ SysMergeUnlinkHint == wr.pc = "m.unlink" /\ wr.unl # {} /\ IsCall("unlink", "hin
 SysMergeUnlinkData == wr.pc = "m.unlink_data" /\ IsCall("unlink", "data", NextUnlink) /\ E.res >= 0 /\ MergeUnlinkData
 SysMergeNewActive == wr.pc = "m.unlink" /\ wr.unl = {} /\ IsCall("create", "data", wr.out + 1) /\ MergeNewActive
 
-\* a write into the merge output: part of the copy of some record.  io::copy hands the record to the
-\* output's BufWriter in pieces of at most BufCap bytes; the copy is complete when the pieces add up
-\* to the size of a record that is still to be moved (TLC branches when several have that size).
-SysMergeCopyPiece ==
-    /\ wr.pc = "m.loop" /\ IsCall("write", "data", wr.out) /\ E.n <= BufCap
-    /\ \/ /\ acc' = acc + E.n            \* more pieces follow
-          /\ \E k \in MergeTodo : keydir[k].len > acc + E.n
-          /\ UNCHANGED vars
-       \/ /\ \E k \in MergeTodo : keydir[k].len = acc + E.n /\ MergeCopy(k)
-          /\ acc' = 0
+\* a write into the merge output: a piece of the copy of some record (io::copy hands the record to the
+\* output's BufWriter in pieces of at most BufCap bytes).  Which key the DashMap iterator yielded is
+\* inferred: TLC branches over the keys still to be moved whose record starts with a piece of that size.
+SysMergeCopyFirst ==
+    /\ wr.pc = "m.loop" /\ IsCall("write", "data", wr.out)
+    /\ \E k \in MergeTodo : E.n = Chunks(keydir[k].len)[1] /\ MergeCopy(k)
+SysMergeCopyMore ==
+    /\ wr.pc = "m.copy" /\ IsCall("write", "data", wr.out) /\ E.n = Chunks(keydir[wr.k].len)[wr.ci] /\ MergeCopyMore
 
 \* -- the failed call and the calls of the error paths (BitcaskFault.tla) --
 FaultSys ==
@@ -150,7 +148,7 @@ FaultSys ==
     \* a failing call inside a merge: it must be the call the merge is about to issue
     \/ /\ \/ (wr.pc = "m.create_data" /\ IsFailed("create", "data", wr.out))
           \/ (wr.pc = "m.create_hint" /\ IsFailed("create", "hint", wr.out))
-          \/ (wr.pc = "m.loop" /\ IsFailed("write", "data", wr.out))
+          \/ (wr.pc \in {"m.loop", "m.copy"} /\ IsFailed("write", "data", wr.out))
           \/ (wr.pc = "m.hint" /\ IsFailed("write", "hint", wr.out))
           \/ (wr.pc \in {"m.roll_sync_data", "m.sync_data"} /\ IsFailed("fsync", "data", wr.out))
           \/ (wr.pc \in {"m.roll_sync_hint", "m.sync_hint"} /\ IsFailed("fsync", "hint", wr.out))
@@ -173,20 +171,19 @@ FaultSys ==
 
 SysStep ==
     /\ l <= N /\ Mutating(E)
-    /\ \/ (SysMergeCopyPiece /\ NoFaultChange /\ Consume)
-       \/ /\ \/ SysOpenCreate
-             \/ ((SysAppend \/ SysSync \/ SysRoll \/ SysMergeCreateData \/ SysMergeCreateHint
-                   \/ SysMergeHint \/ SysMergeSyncData \/ SysMergeSyncHint \/ SysMergeUnlinkHint \/ SysMergeUnlinkData
-                   \/ SysMergeNewActive) /\ NoFaultChange)
-             \/ FaultSys
-          /\ acc' = acc /\ Consume
+    /\ \/ SysOpenCreate
+       \/ ((SysAppend \/ SysSync \/ SysRoll \/ SysMergeCreateData \/ SysMergeCreateHint \/ SysMergeCopyFirst \/ SysMergeCopyMore
+             \/ SysMergeHint \/ SysMergeSyncData \/ SysMergeSyncHint \/ SysMergeUnlinkHint \/ SysMergeUnlinkData
+             \/ SysMergeNewActive) /\ NoFaultChange)
+       \/ FaultSys
+    /\ Consume
 
 \* steps without a system call
 Silent ==
     /\ \/ ((AccountStep \/ MergeRepoint \/ MergeLoopEnd) /\ NoFaultChange)
        \/ FPublish
        \/ FRet
-    /\ acc = 0 /\ UNCHANGED <<l, acc>>
+    /\ UNCHANGED l
 
 -----------------------------------------------------------------------------------------
 (* ret: the specification is idle and its state equals the recorded real state *)
@@ -217,7 +214,7 @@ RetEv ==
     /\ wr \in {Idle, [pc |-> "openfailed"]}
     /\ (Has(E, "st") => StateMatches(E.st))
     /\ (Has(E, "gets") => \A k \in Keys : E.gets[k] = ReadKey(keydir, data, k))
-    /\ Consume /\ UNCHANGED <<fvars, acc>>
+    /\ Consume /\ UNCHANGED fvars
 
 TNext == Skip \/ CrashProbe \/ ResetEv \/ InvEv \/ SysStep \/ Silent \/ RetEv
 TSpec == TInit /\ [][TNext]_tvars
